@@ -392,6 +392,8 @@ class Engine:
         # a scalar read at the start of an aggregate reads its first scalar member
         while v.get('k') == 'agg' and v.get('elts'):
             v = v['elts'][0]
+        if v.get('k') == 'zero':
+            return 0
         return self.const_value(v)
 
     def const_value(self, c):
@@ -661,7 +663,16 @@ class Engine:
                 regs[inst.id] = TOP
             return None
         if op == 'insertvalue':
-            regs[inst.id] = TOP
+            base = self.val(f, inst.ops[0])
+            idx = inst.x.get('idx') or []
+            if len(idx) == 1:
+                elts = list(base[1]) if is_agg(base) else []
+                while len(elts) <= idx[0]:
+                    elts.append(TOP)
+                elts[idx[0]] = self.val(f, inst.ops[1])
+                regs[inst.id] = ('agg', tuple(elts))
+            else:
+                regs[inst.id] = TOP
             return None
         if op == 'select':
             return self.exec_select(st, f, inst)
